@@ -22,14 +22,21 @@ RULE = ('operand/operator sequences: operands are atoms, calls, lists, maps, '
         'prefix operators x an index suffix on one operand; random: up to 12 '
         'operators, redundant parentheses, random whitespace; custom tables: '
         'generated sequences of insert_operator calls keeping groups '
-        'homogeneous; non-trivial = two adjacent operators (same or '
+        'homogeneous; engines created part-way through such a sequence and '
+        'used directly, through copy() and with per-call options while the '
+        'factory is customised further (texts using the later operators '
+        'are judged against an engine of an untouched factory with the '
+        'same table); the two stock tables themselves against copies '
+        'pinned in the check; non-trivial = two adjacent operators (same or '
         'different groups), or a prefix operator followed by a binary one, '
         'or an index suffix after a binary operand, or an inserted operator '
         'used; distinct = distinct (table, token structure)')
 ASSUMPTIONS = [
     'tables are only edited through insert_operator (direct assignment to '
     'factory.operators is outside the quantifier)',
-    'the model reads factory.operators as data; it shares nothing with ply',
+    'the model reads factory.operators as data for customised tables (the '
+    'insertion model decides where an inserted operator belongs) and the '
+    'pinned copies for the stock tables; it shares nothing with ply',
 ]
 
 OT = yfactory.OperatorType
